@@ -5,6 +5,7 @@ package main
 import (
 	"fmt"
 	"math"
+	"strings"
 
 	"github.com/google/pprof/internal/graph"
 	"github.com/google/pprof/internal/report"
@@ -42,6 +43,10 @@ func c18UnitGraph(v int64) *graph.Graph {
 // c18MeanProfile: [count, delay/<unit>]; many cheap events and a rare expensive one: with -mean the
 // overall mean is 0 (integer division) while the node "slow" has a non-zero mean.
 func c18MeanProfile(unit string, sign int64, scale int64) *profile.Profile {
+	typ := "delay"
+	if len(unit)%2 == 0 && !strings.Contains(unit, "\n") {
+		typ = "de\"lay\\<" // odd characters in the sample TYPE as well (legend line "Type: ...", callgrind events line)
+	}
 	m := &profile.Mapping{ID: 1, Start: 0x1000, Limit: 0x9000, File: "/bin/prog"}
 	mk := func(id uint64, name string) (*profile.Function, *profile.Location) {
 		f := &profile.Function{ID: id, Name: name, SystemName: name, Filename: name + ".go"}
@@ -51,7 +56,7 @@ func c18MeanProfile(unit string, sign int64, scale int64) *profile.Profile {
 	f2, l2 := mk(2, "fast")
 	f3, l3 := mk(3, "slow")
 	return &profile.Profile{
-		SampleType: []*profile.ValueType{{Type: "events", Unit: "count"}, {Type: "delay", Unit: unit}},
+		SampleType: []*profile.ValueType{{Type: "events", Unit: "count"}, {Type: typ, Unit: unit}},
 		Sample: []*profile.Sample{
 			{Location: []*profile.Location{l2, l1}, Value: []int64{100 * scale, sign * 1}, Label: map[string][]string{"k": {"v"}}},
 			{Location: []*profile.Location{l3, l1}, Value: []int64{1, sign * 9}, NumLabel: map[string][]int64{"bytes": {8}}, NumUnit: map[string][]string{"bytes": {"bytes"}}},
@@ -133,12 +138,21 @@ func c18UnitCases(c *Ctx, dotCase func(gen string, g *graph.Graph, a *graph.DotA
 						text = outs[len(outs)-1].String()
 					}
 					c18E2EOut(c, "e2e-cli-unit", "e2edot", args, nil, 0, text, st, true, "unit")
+					if !strings.Contains(u, "\n") && sign > 0 { // callgrind: the unit sits on the events line; most costs are 0 with -mean
+						args[0] = "-callgrind"
+						outs, st := c18Run(args, nil, map[string]*profile.Profile{"src": p}, nil)
+						text := ""
+						if len(outs) > 0 {
+							text = outs[len(outs)-1].String()
+						}
+						c18E2EOut(c, "e2e-cli-unit", "e2ecg", args, nil, 0, text, st, true, "unit")
+					}
 				}
 			}
 		}
 		// the unit on the OTHER column, a comparison whose total cancels, a session that switches -mean on and off
 		p := c18MeanProfile(u, 1, 1)
-		for _, extra := range [][]string{{"-sample_index=0"}, {"-mean", "-sample_index=delay"}, {"-diff_base=base"}, {"-diff_base=base", "-mean"}, {"-mean", "-unit=" + u}, {"-mean", "-call_tree", "-nodecount=1"}} {
+		for _, extra := range [][]string{{"-sample_index=0"}, {"-mean", "-sample_index=1"}, {"-diff_base=base"}, {"-diff_base=base", "-mean"}, {"-mean", "-unit=" + u}, {"-mean", "-call_tree", "-nodecount=1"}} {
 			args := append(append([]string{"-dot", "-symbolize=none", "-output=o"}, extra...), "src")
 			outs, st := c18Run(args, nil, map[string]*profile.Profile{"src": p, "base": c18MeanProfile(u, 1, 1)}, nil)
 			text := ""
